@@ -1,1 +1,294 @@
-/-! Property theorems for C09 (see /verif/DESIGN.md). Only property theorems and non-vacuity examples live here. -/
+import GoawkModel.C09
+import GoawkModel.C09Spec
+import Proofs.C09
+import Proofs.C09Scan
+/-! Property theorems for C09 (see /verif/DESIGN.md). Only property theorems and non-vacuity examples live here.
+
+`goFormat` is what `fmt.Sprintf` does with one conversion GoAWK hands it, `cFormat` is ISO C `printf` for the argument converted
+the AWK way; the digit generator of floating conversions is a shared parameter. The full statement `SprintfIsC` is false of the
+current code (findings F15, F27, G09-1, G09-2): the `_fails` theorems carry the witnesses, `sprintf_is_c_partial_*` are the
+per-family theorems outside those classes. -/
+namespace GoawkModel.C09.Props
+open GoawkModel GoawkModel.C09
+
+/-- the generated verb-rewrite table is the one the proofs were made for -/
+theorem gen_matches :
+    Generated.C09Verbs.verbTable =
+      [(115, 115, 115), (100, 100, 100), (111, 117, 111), (120, 117, 120), (88, 117, 88), (105, 100, 100), (102, 102, 102),
+       (101, 102, 101), (69, 102, 69), (103, 102, 103), (71, 102, 71), (97, 102, 120), (65, 102, 88), (117, 117, 100), (99, 99, 115)] ∧
+    Generated.C09Verbs.specChars = [32, 46, 45, 43, 42, 35, 48, 49, 50, 51, 52, 53, 54, 55, 56, 57] ∧
+    Generated.C09Verbs.specCharsG = Generated.C09Verbs.specChars ∧
+    Generated.C09Verbs.starType = 100 ∧ Generated.C09Verbs.precGVerbs = [103, 71] ∧ Generated.C09Verbs.precGInsert = [46, 54] ∧
+    Generated.C09Verbs.convLetters = [115, 100, 102, 117, 99] := by decide
+
+/-- the full statement: every conversion specification in the C domain, applied to any arguments, gives what C gives -/
+def SprintfIsC : Prop :=
+  ∀ (dg : DigitGen) (chars : Bool) (sp : Spec) (args : List Arg) (out : Bytes),
+    sp.wellFormed = true → cPrintf dg chars sp args = some out →
+    (∀ w p, InCDomain (resolveSpec (goFlags sp.flags) w p sp.verb)) →
+    awkSprintf dg chars sp.render args = .ok out
+
+def dg0 : DigitGen := ⟨fun _ _ _ _ _ => [48]⟩
+def num (n : Nat) : Arg := ⟨false, decimal n, .fin false n 0⟩
+def negNum (n : Nat) : Arg := ⟨false, 45 :: decimal n, .fin true n 0⟩
+
+/-- F15: `%#x` of 0 prints `0x0`, C prints `0` -/
+theorem sprintf_is_c_fails : ¬ SprintfIsC := by
+  intro h
+  have := h dg0 false ⟨[35], .absent, .absent, 120⟩ [num 0] [48] (by decide) (by decide)
+    (by intro w p; cases w <;> cases p <;> simp [InCDomain, inCDomain, resolveSpec, goFlags] <;> split <;> simp)
+  revert this; decide
+
+/-- F15, the other members: `%#.0o`, `%+.0d` of 0 -/
+theorem sprintf_is_c_fails_F15_prec0 :
+    awkSprintf dg0 false ([37, 35, 46, 48, 111] /- "%#.0o" -/) [num 0] = .ok [] ∧ cPrintf dg0 false ⟨[35], .absent, .lit [48], 111⟩ [num 0] = some [48] ∧
+    awkSprintf dg0 false ([37, 43, 46, 48, 100] /- "%+.0d" -/) [num 0] = .ok [] ∧ cPrintf dg0 false ⟨[43], .absent, .lit [48], 100⟩ [num 0] = some [43] := by decide
+
+/-- F27: an infinity under `%f` prints `+Inf`, C prints `inf` -/
+theorem sprintf_is_c_fails_F27 :
+    awkSprintf dg0 false ([37, 102] /- "%f" -/) [⟨false, [105, 110, 102] /- "inf" -/, .inf false⟩] = .ok ([43, 73, 110, 102] /- "+Inf" -/) ∧
+    cPrintf dg0 false ⟨[], .absent, .absent, 102⟩ [⟨false, [105, 110, 102] /- "inf" -/, .inf false⟩] = some ([105, 110, 102] /- "inf" -/) := by decide
+
+/-- G09-1: `%#08x` of 255 is two characters too wide -/
+theorem sprintf_is_c_fails_G09_1 :
+    awkSprintf dg0 false ([37, 35, 48, 56, 120] /- "%#08x" -/) [num 255] = .ok ([48, 120, 48, 48, 48, 48, 48, 48, 102, 102] /- "0x000000ff" -/) ∧
+    cPrintf dg0 false ⟨[35, 48], .lit [56], .absent, 120⟩ [num 255] = some ([48, 120, 48, 48, 48, 48, 102, 102] /- "0x0000ff" -/) := by decide
+
+/-- G09-2: a negative `*` precision makes `fmt` print its `%!(BADPREC)` text -/
+theorem sprintf_is_c_fails_G09_2 :
+    awkSprintf dg0 false ([37, 46, 42, 100] /- "%.*d" -/) [negNum 1, num 5] = .ok ([37, 33, 40, 66, 65, 68, 80, 82, 69, 67, 41, 53] /- "%!(BADPREC)5" -/) ∧
+    cPrintf dg0 false ⟨[], .absent, .star, 100⟩ [negNum 1, num 5] = some ([53] /- "5" -/) := by decide
+
+/-! ### the integer conversions `d i o u x X` -/
+
+/-- C's base / case / signedness of an integer verb -/
+def intVerb (verb : UInt8) : Option (Bool × Bool × Bool × Bool × Nat) :=   -- signed, oct, hex, upper, base
+  if verb = 100 || verb = 105 then some (true, false, false, false, 10)
+  else if verb = 117 then some (false, false, false, false, 10)
+  else if verb = 111 then some (false, true, false, false, 8)
+  else if verb = 120 then some (false, false, true, false, 16)
+  else if verb = 88 then some (false, false, true, true, 16)
+  else none
+
+/-- the recorded classes on which Go's integer formatting is not C's (F15, G09-1) -/
+def IntExcluded (cs : CSpec) (neg : Bool) (u : Nat) : Prop :=
+  (u = 0 ∧ cs.prec = some 0 ∧ (neg = true ∨ cs.fl.plus = true ∨ cs.fl.space = true)) ∨
+  (u = 0 ∧ cs.fl.sharp = true ∧ (cs.verb = 120 ∨ cs.verb = 88) ∧ cs.prec ≠ some 0) ∨
+  (u = 0 ∧ cs.fl.sharp = true ∧ cs.verb = 111 ∧ cs.prec = some 0) ∨
+  (cs.fl.sharp = true ∧ (cs.verb = 120 ∨ cs.verb = 88) ∧ cs.fl.zero = true ∧ cs.fl.minus = false ∧ cs.prec = none ∧
+    ∃ w, cs.width = some w ∧ w > (natDigits 16 (cs.verb = 88) u).length)
+
+/-- `sprintf_is_c` for `d i`: in the C domain and outside F15, what `fmt.Sprintf("%…d", int64)` produces is C's `%…d`/`%…i` of
+the same integer, for every flag set, width, precision and value -/
+theorem sprintf_is_c_partial_signed (dg : DigitGen) (cs : CSpec) (v : Int)
+    (hverb : cs.verb = 100 ∨ cs.verb = 105) (hdom : InCDomain cs)
+    (hx : ¬ IntExcluded cs (decide (v < 0)) v.natAbs) :
+    goFormat dg ⟨cs.fl, cs.width, cs.prec, 100⟩ (.i64 v) = cFormat dg cs (.int v) := by
+  obtain ⟨fl, wid, prec, verb⟩ := cs
+  simp only at hverb
+  have hsharp : fl.sharp = false := by
+    rcases hverb with h | h <;> subst h <;> cases hs : fl.sharp <;> simp_all [InCDomain, inCDomain]
+  have hcore := cFmtInteger_core fl wid prec (decide (v < 0)) v.natAbs
+  have hgo := goInt_eq_cIntCore fl wid prec true false false false 10 (by omega) (decide (v < 0)) v.natAbs
+    (by simp) (by simp) (by simp [hsharp]) (by simp) (by simp)
+    (fun h => hx (Or.inl h)) (by simp) (by simp) (by simp)
+  rcases hverb with h | h <;> subst h
+  · simp [goFormat, cFormat, hgo, hcore.1]
+  · simp [goFormat, cFormat, hgo, hcore.2.1]
+
+/-- `sprintf_is_c` for `o u x X` (the argument is `uint64(int64(x))`): outside F15 and G09-1 -/
+theorem sprintf_is_c_partial_unsigned (dg : DigitGen) (cs : CSpec) (u : Nat) (g : UInt8)
+    (hverb : (cs.verb = 117 ∧ g = 100) ∨ (cs.verb = 111 ∧ g = 111) ∨ (cs.verb = 120 ∧ g = 120) ∨ (cs.verb = 88 ∧ g = 88))
+    (hdom : InCDomain cs) (hx : ¬ IntExcluded cs false u) :
+    goFormat dg ⟨cs.fl, cs.width, cs.prec, g⟩ (.u64 u) = cFormat dg cs (.uint u) := by
+  obtain ⟨fl, wid, prec, verb⟩ := cs
+  simp only at hverb
+  have hcore := cFmtInteger_core fl wid prec false u
+  have hps : fl.plus = false ∧ fl.space = false := by
+    rcases hverb with ⟨h, _⟩ | ⟨h, _⟩ | ⟨h, _⟩ | ⟨h, _⟩ <;> subst h <;>
+      cases hp : fl.plus <;> cases hs : fl.space <;> simp_all [InCDomain, inCDomain]
+  rcases hverb with ⟨h, hg⟩ | ⟨h, hg⟩ | ⟨h, hg⟩ | ⟨h, hg⟩ <;> subst h <;> subst hg
+  · -- u
+    have hsharp : fl.sharp = false := by cases hs : fl.sharp <;> simp_all [InCDomain, inCDomain]
+    have hgo := goInt_eq_cIntCore fl wid prec false false false false 10 (by omega) false u
+      (by simp) (by simp) (by simp [hsharp]) (by simp [hps.1, hps.2]) (by simp)
+      (fun h => hx (Or.inl h)) (by simp) (by simp) (by simp)
+    simp [goFormat, cFormat, hgo, hcore.2.2.1]
+  · -- o
+    have hgo := goInt_eq_cIntCore fl wid prec false true false false 8 (by omega) false u
+      (by simp) (by simp) (by simp) (by simp [hps.1, hps.2]) (by simp)
+      (fun h => hx (Or.inl h)) (by simp) (fun h => hx (Or.inr (Or.inr (Or.inl ⟨h.1, h.2.1, rfl, h.2.2.2⟩)))) (by simp)
+    simp [goFormat, cFormat, hgo, hcore.2.2.2.1]
+  · -- x
+    have hgo := goInt_eq_cIntCore fl wid prec false false true false 16 (by omega) false u
+      (by simp) (by simp) (by simp) (by simp [hps.1, hps.2]) (by simp)
+      (fun h => hx (Or.inl h)) (fun h => hx (Or.inr (Or.inl ⟨h.1, h.2.1, Or.inl rfl, h.2.2.2⟩))) (by simp)
+      (fun h => hx (Or.inr (Or.inr (Or.inr ⟨h.1, Or.inl rfl, h.2.2.1, h.2.2.2.1, h.2.2.2.2.1, by simpa using h.2.2.2.2.2⟩))))
+    simp [goFormat, cFormat, hgo, hcore.2.2.2.2.1]
+  · -- X
+    have hgo := goInt_eq_cIntCore fl wid prec false false true true 16 (by omega) false u
+      (by simp) (by simp) (by simp) (by simp [hps.1, hps.2]) (by simp)
+      (fun h => hx (Or.inl h)) (fun h => hx (Or.inr (Or.inl ⟨h.1, h.2.1, Or.inr rfl, h.2.2.2⟩))) (by simp)
+      (fun h => hx (Or.inr (Or.inr (Or.inr ⟨h.1, Or.inr rfl, h.2.2.1, h.2.2.2.1, h.2.2.2.2.1, by simpa using h.2.2.2.2.2⟩))))
+    simp [goFormat, cFormat, hgo, hcore.2.2.2.2.2]
+
+example : InCDomain ⟨{ plus := true, zero := true }, some 8, none, 100⟩ ∧ ¬ IntExcluded ⟨{ plus := true, zero := true }, some 8, none, 100⟩ false 42 := by
+  refine ⟨by decide, ?_⟩; simp [IntExcluded]
+example : goFormat dg0 ⟨{ plus := true, zero := true }, some 8, none, 100⟩ (.i64 42) = some ([43, 48, 48, 48, 48, 48, 52, 50] /- "+0000042" -/) := by decide
+example : InCDomain ⟨{ sharp := true }, some 6, some 3, 111⟩ ∧ ¬ IntExcluded ⟨{ sharp := true }, some 6, some 3, 111⟩ false 8 := by
+  refine ⟨by decide, ?_⟩; simp [IntExcluded]
+
+/-! ### `s` and `c` -/
+
+/-- `%s` (and its width/precision/`-`) is C's for ASCII text (C counts bytes, Go counts runes) -/
+theorem sprintf_is_c_partial_str (dg : DigitGen) (cs : CSpec) (s : Bytes)
+    (hverb : cs.verb = 115) (hdom : InCDomain cs) (hascii : AllAscii s) :
+    goFormat dg ⟨cs.fl, cs.width, cs.prec, 115⟩ (.str s) = cFormat dg cs (.str s) := by
+  obtain ⟨fl, wid, prec, verb⟩ := cs
+  simp only at hverb; subst hverb
+  have hz : fl.zero = false := by cases hz : fl.zero <;> simp_all [InCDomain, inCDomain]
+  simp [goFormat, cFormat, goFmtS_is_c fl wid prec s hascii hz]
+
+/-- `%c` (rewritten to `%s` of the character's bytes): the character padded to the width; a multi-byte character only
+without width, or when Go counts it as one rune -/
+theorem sprintf_is_c_partial_chr (dg : DigitGen) (cs : CSpec) (c : Bytes)
+    (hverb : cs.verb = 99) (hdom : InCDomain cs) (hone : runeCount c = 1 ∨ cs.width = none) :
+    goFormat dg ⟨cs.fl, cs.width, cs.prec, 115⟩ (.bytes c) = cFormat dg cs (.chr c) := by
+  obtain ⟨fl, wid, prec, verb⟩ := cs
+  simp only at hverb hone; subst hverb
+  have hz : fl.zero = false := by cases hz : fl.zero <;> simp_all [InCDomain, inCDomain]
+  have hp : prec = none := by cases prec <;> simp_all [InCDomain, inCDomain]
+  subst hp
+  simp [goFormat, cFormat, goFmtS_chr_is_c fl wid c hz hone]
+
+/-- the `%c` argument of a number in byte mode is one byte: the character with that code modulo 256 -/
+theorem chr_of_number_is_one_byte (a : Arg) (h : a.isStr = false) :
+    ∃ b, charBytes false a = [b] ∧ runeCount (charBytes false a) = 1 := by
+  refine ⟨UInt8.ofNat ((toInt32 a.n) % 256).toNat, ?_, ?_⟩ <;> simp [charBytes, h, runeCount_single]
+
+/-- … and of a string its first byte (NUL for the empty string) -/
+theorem chr_of_string_is_first_byte (a : Arg) (h : a.isStr = true) :
+    charBytes false a = [a.s.headD 0] := by
+  cases hs : a.s <;> simp [charBytes, h, hs]
+
+example : goFormat dg0 ⟨{ minus := true }, some 3, none, 115⟩ (.bytes [65]) = some ([65, 32, 32] /- "A  " -/) := by decide
+
+/-! ### `e E f g G`, finite values -/
+
+/-- Go's `#` post-processing of `strconv`'s text yields the `#` form C prescribes (an assumption on the digit generator, checked
+by correspondence for the exact generator; not proved) -/
+def SharpCoherent (dg : DigitGen) : Prop :=
+  ∀ verb prec m e, goSharpFloat verb prec (dg.gen verb false prec m e) = dg.gen verb true prec m e
+
+def AsciiDigits (dg : DigitGen) : Prop := ∀ verb sharp prec m e, AllAscii (dg.gen verb sharp prec m e)
+
+/-- sign, `+`/space, `0` and `-` padding and width of the floating conversions are C's for every finite value; the precision is
+the explicit one, else 6 (GoAWK inserts `.6` for `g G`, `fmt` defaults `e E f` to 6) -/
+theorem sprintf_is_c_partial_float (dg : DigitGen) (cs : CSpec) (neg : Bool) (m : Nat) (e : Int)
+    (hverb : cs.verb = 101 ∨ cs.verb = 69 ∨ cs.verb = 102 ∨ cs.verb = 103 ∨ cs.verb = 71)
+    (hascii : AsciiDigits dg) (hsharp : cs.fl.sharp = true → SharpCoherent dg) :
+    goFormat dg ⟨cs.fl, cs.width, some (cs.prec.getD 6), cs.verb⟩ (.f64 (.fin neg m e)) = cFormat dg cs (.dbl (.fin neg m e)) := by
+  obtain ⟨fl, wid, prec, verb⟩ := cs
+  simp only at hverb hsharp
+  have key := goFmtFloat_is_c dg fl wid (prec.getD 6) verb neg m e (hascii _ _ _ _ _) (fun h => hsharp h _ _ _ _)
+  have hc : cFmtFloat dg ⟨fl, wid, some (prec.getD 6), verb⟩ (.fin neg m e) = cFmtFloat dg ⟨fl, wid, prec, verb⟩ (.fin neg m e) := by
+    simp [cFmtFloat]
+  rcases hverb with h | h | h | h | h <;> subst h <;> simp [goFormat, cFormat, key, hc]
+
+example : AsciiDigits dg0 := by intro _ _ _ _ _ x hx; simp [dg0] at hx; rw [hx]; decide
+
+/-- `addDefaultPrecisionG` gives `%g` the precision 6 (F14, fixed) and leaves an explicit precision and the other verbs alone -/
+theorem default_precision_g :
+    addPrecG ([37, 103] /- "%g" -/) = [37, 46, 54, 103] /- "%.6g" -/ ∧ addPrecG ([37, 45, 56, 71, 124, 37, 46, 51, 103, 124, 37, 101, 124, 37, 37, 103] /- "%-8G|%.3g|%e|%%g" -/) = [37, 45, 56, 46, 54, 71, 124, 37, 46, 51, 103, 124, 37, 101, 124, 37, 37, 103] /- "%-8.6G|%.3g|%e|%%g" -/ := by decide
+
+/-! ### errors, `%%`, `*` -/
+
+/-- too few arguments is an error naming both counts — never output -/
+theorem too_few_args_error (dg : DigitGen) (chars : Bool) (fmt gofmt : Bytes) (types : List UInt8) (args : List Arg)
+    (hp : parseFmtTypes fmt = .ok (gofmt, types)) (hlt : args.length < types.length) :
+    awkSprintf dg chars fmt args = .err (.argCount args.length types.length) := by
+  simp [awkSprintf, hp, hlt]
+
+/-- an unknown conversion character is an error, whatever follows and whatever the arguments -/
+theorem unknown_verb_error (dg : DigitGen) (chars : Bool) (body : Bytes) (v : UInt8) (rest : Bytes) (args : List Arg)
+    (hb : ∀ c ∈ body, isSpecChar c = true) (hv : isSpecChar v = false) (hne : body = [] → v ≠ 37)
+    (hunknown : lookupVerb v = none) :
+    awkSprintf dg chars (37 :: (body ++ v :: rest)) args = .err (.badVerb v) := by
+  unfold awkSprintf parseFmtTypes
+  rw [List.length_cons, parseFmtAux_spec _ body v rest hb hv hne, hunknown]
+
+/-- a format that ends inside a specification is an error -/
+theorem missing_verb_error (dg : DigitGen) (chars : Bool) (body : Bytes) (args : List Arg)
+    (hb : ∀ c ∈ body, isSpecChar c = true) :
+    awkSprintf dg chars (37 :: body) args = .err .noVerb := by
+  have hall : ∀ (l : Bytes), (∀ c ∈ l, isSpecChar c = true) → l.dropWhile isSpecChar = [] := by
+    intro l; induction l with
+    | nil => intro _; rfl
+    | cons x r ih => intro h; simp [List.dropWhile, h x (by simp), ih (fun c hc => h c (by simp [hc]))]
+  have htw : body.dropWhile isSpecChar = [] := hall body hb
+  cases body with
+  | nil => simp [awkSprintf, parseFmtTypes, parseFmtAux]
+  | cons b bs =>
+    have hb37 : b ≠ 37 := isSpecChar_ne_pct b (hb b (by simp))
+    simp [awkSprintf, parseFmtTypes, parseFmtAux, hb37, htw]
+
+example : lookupVerb 122 = none ∧ isSpecChar 122 = false := by decide
+
+/-- `%%` is a percent sign and takes no argument -/
+theorem percent_percent (dg : DigitGen) (chars : Bool) (args : List Arg) :
+    awkSprintf dg chars [37, 37] args = .ok [37] := by
+  have h1 : parseFmtTypes [37, 37] = .ok ([37, 37], []) := by rfl
+  simp only [awkSprintf, h1]
+  simp [convertArgs]
+  rfl
+
+/-- each `*` takes one argument (converted like `%d`) before the value: `%<flags>*<verb>` with a single argument is the
+"got 1 args, expected 2" error -/
+theorem star_width_consumes_arg (dg : DigitGen) (chars : Bool) (flags : Bytes) (verb t g : UInt8) (a : Arg)
+    (hf : ∀ c ∈ flags, isGoFlag c = true) (hvs : isSpecChar verb = false) (hv : lookupVerb verb = some (t, g)) :
+    awkSprintf dg chars (37 :: ((flags ++ [42]) ++ verb :: [])) [a] = .err (.argCount 1 2) := by
+  have hb : ∀ c ∈ flags ++ [42], isSpecChar c = true := by
+    intro c hc
+    rcases List.mem_append.mp hc with h | h
+    · exact isGoFlag_isSpecChar c (hf c h)
+    · simp at h; subst h; decide
+  have hst : starTypes (flags ++ [42]) = [100] := by
+    have : flags.filter (· == 42) = [] := by
+      rw [List.filter_eq_nil_iff]; intro c hc; simpa using isGoFlag_ne_star c (hf c hc)
+    simp [starTypes, List.filter_append, this]; decide
+  unfold awkSprintf parseFmtTypes
+  rw [List.length_cons, parseFmtAux_spec _ (flags ++ [42]) verb [] hb hvs (by simp), hv]
+  simp [parseFmtAux_nil, hst]
+
+/-- … and with both arguments the width is the first one: `%*d` of (5, 42) is `   42`; a negative one left-justifies -/
+theorem star_width_value :
+    awkSprintf dg0 false ([37, 42, 100] /- "%*d" -/) [num 5, num 42] = .ok ([32, 32, 32, 52, 50] /- "   42" -/) ∧
+    awkSprintf dg0 false ([37, 42, 100, 124] /- "%*d|" -/) [negNum 5, num 42] = .ok ([52, 50, 32, 32, 32, 124] /- "42   |" -/) ∧
+    awkSprintf dg0 false ([37, 46, 42, 100] /- "%.*d" -/) [num 4, num 42] = .ok ([48, 48, 52, 50] /- "0042" -/) := by decide
+
+/-! ### print / OFMT -/
+
+/-- `print` writes an integral number in the int64 range as a plain integer, whatever OFMT is -/
+theorem print_integral (dg : DigitGen) (ofmt : Bytes) (neg : Bool) (m : Nat) (e : Int)
+    (hint : e ≥ 0) (hrange : truncMag m e < two63) :
+    numToStr dg ofmt (.fin neg m e) = .ok (if neg && truncMag m e ≠ 0 then 45 :: decimal (truncMag m e) else decimal (truncMag m e)) := by
+  have h2 : truncMag m e ≤ two63 := Nat.le_of_lt hrange
+  cases neg <;> simp [numToStr, hint, hrange, h2]
+
+/-- … and every other finite number by formatting it with OFMT (through the same `fmt` machinery, `%g` defaulting to 6 digits) -/
+theorem print_uses_ofmt (dg : DigitGen) (ofmt : Bytes) (neg : Bool) (m : Nat) (e : Int)
+    (hfrac : e < 0 ∧ truncMag m e * 2 ^ (-e).toNat ≠ m) :
+    numToStr dg ofmt (.fin neg m e) = goPrintf dg (addPrecG ofmt) [.f64 (.fin neg m e)] := by
+  have h1 : ¬ e ≥ 0 := by omega
+  simp [numToStr, h1, hfrac.2]
+
+/-- with the default OFMT that is `%.6g` of the value -/
+theorem print_default_ofmt (dg : DigitGen) (x : F64) :
+    goPrintf dg (addPrecG ([37, 46, 54, 103] /- "%.6g" -/)) [.f64 x] = .ok (goFmtFloat dg {} none 6 103 x) := by
+  have h : addPrecG ([37, 46, 54, 103] /- "%.6g" -/) = [37, 46, 54, 103] /- "%.6g" -/ := by decide
+  rw [h]
+  simp [goPrintf, goPrintfAux, goFormat, isGoFlag, isDigit, numVal, litTooLarge, goFlags]
+
+example : (-1 : Int) < 0 ∧ truncMag 3 (-1) * 2 ^ (1 : Nat) ≠ 3 := by decide
+
+end GoawkModel.C09.Props
